@@ -6,7 +6,7 @@ left associativity, prefix tighter than any binary operator, postfix (call / fie
 (kind + exact token span) the grammar prescribes.  Terminals with alternatives are symbolic inside their class."""
 import os, json
 import z3
-from mirsym import explore, native
+from mirsym import explore, native, models
 from mirsym.values import *
 from . import syn, synspecs, synrun
 from .runner import Check
@@ -398,6 +398,61 @@ def program_factory(name):
     return ProgramSpec(name)
 
 
+def _in(b, lo, hi):
+    return z3.And(z3.UGE(b, ord(lo)), z3.ULE(b, ord(hi)))
+
+
+def gleam_int(bs):
+    """valid Gleam integer literal: decimal digits (underscores inside), 0x hex, 0o octal, 0b binary"""
+    if not bs:
+        return z3.BoolVal(False)
+    dec = z3.And([_in(bs[0], '0', '9')] + [z3.Or(_in(b, '0', '9'), b == ord('_')) for b in bs[1:]])
+    alts = [dec]
+    if len(bs) >= 3:
+        pre = lambda a, b: z3.And(bs[0] == ord('0'), z3.Or(bs[1] == ord(a), bs[1] == ord(b)))
+        hexd = lambda b: z3.Or(_in(b, '0', '9'), _in(b, 'a', 'f'), _in(b, 'A', 'F'), b == ord('_'))
+        alts.append(z3.And([pre('x', 'X'), z3.Not(bs[2] == ord('_'))] + [hexd(b) for b in bs[2:]]))
+        alts.append(z3.And([pre('o', 'O'), z3.Not(bs[2] == ord('_'))] + [z3.Or(_in(b, '0', '7'), b == ord('_')) for b in bs[2:]]))
+        alts.append(z3.And([pre('b', 'B'), z3.Not(bs[2] == ord('_'))] + [z3.Or(_in(b, '0', '1'), b == ord('_')) for b in bs[2:]]))
+    return z3.Or(alts)
+
+
+class LiteralClassSpec(synspecs.LexStepSpec):
+    """every valid Gleam integer literal of n bytes is ONE INTEGER token of the real lexer (the converse is not demanded)"""
+
+    def run_path(self, it):
+        n = self.n
+        src = [IntV(b, 8, 0) for b in self.bs]
+        lx = LexerV(src)
+        gl = Agg('struct', 'GleamLexer', None, [lx])
+        r = it.run_body(self.next, [RefV([gl], 0)])
+        single_int = None
+        if r.variant == 'Some':
+            tok = r.fields[0]; k = tok.fields[0]
+            e = models.tsz(tok.fields[2].fields[1]).v
+            if e == n:
+                single_int = (k.v == syn.KINDS['INTEGER']) if not k.sym() else (k.v == syn.KINDS['INTEGER'])
+        ref = gleam_int(self.bs)
+        if single_int is True:
+            cond = z3.BoolVal(False)
+        elif single_int is None or single_int is False:
+            cond = ref
+        else:
+            cond = z3.And(ref, z3.Not(single_int))
+        rr, m = it.check(cond)
+        rec = {'ok': True, 'cls': 'int' if single_int is True else 'other'}
+        if rr == z3.sat:
+            w = bytes(m.eval(b, model_completion=True).as_long() for b in self.bs)
+            rec = {'cls': 'violation', 'ok': False, 'why': ['C04: the integer literal %r is not lexed as one INTEGER token' % w.decode('latin1')], 'cex': {'bytes': w.hex()}}
+        else:
+            rec['sample'] = {'text': self.witness(it).hex(), 'class': rec['cls']}
+        return rec
+
+
+def literal_factory(n):
+    return LiteralClassSpec(n)
+
+
 def confirm(chk, res, oracle, sp, label):
     for v in res.violations:
         kinds = [syn.KINDS[k] for k in v['cex']['kinds']]
@@ -440,6 +495,17 @@ def main(tier, seed):
         chk.add_run(name, res, complete, {'binary_operators': nops, 'operator_alphabet': '%d Gleam binary operators' % len(BINOPS), 'prefix_at': list(pre)})
         confirm(chk, res, oracle, sp, name)
         synrun.validate_samples(chk, res, oracle, sp, 'chain %d %s' % (nops, list(pre)))
+    # literals: every valid Gleam integer literal is one INTEGER token (the catalogue spells literals with one fixed text per kind)
+    for n in range(1, (5 if tier == 'quick' else 6) + 1):
+        res, complete = explore.explore(literal_factory, (n,), jobs=jobs)
+        chk.add_run('integer literals of %d bytes through the real lexer' % n, res, complete, {'bytes': n}, nontrivial_classes=lambda c: c == 'int')
+        for v in res.violations:
+            txt = bytes.fromhex(v['cex']['bytes']).decode('latin1')
+            nat = oracle.ask('lex', txt)
+            toks = nat.get('tokens') if isinstance(nat, dict) else None
+            okc = not (toks and len(toks) == 1 and toks[0][0] == syn.KINDS['INTEGER'])
+            chk.violation('lexer:integer-literal', 'bounded', '%s; native lexer on %r: %s' % (v['why'][0], txt, toks), {'text': txt}, confirmed=okc)
+            break
     for pname in PROGRAMS:
         res, complete = explore.explore(program_factory, (pname,), jobs=jobs)
         chk.add_run('program ' + pname, res, complete, {'program': pname, 'symbolic_terminals': 'literal kinds, binary operators, prefix operators'})
